@@ -16,7 +16,7 @@ variable (p : Problem K)
 
 /-- symmetry of an accepted Hermitian problem -/
 structure Sym : Prop where
-  elim_symm : ∀ a b : Fin p.d, p.elimIn a.val b.val = p.elimIn b.val a.val
+  elim_symm : ∀ a b : Fin p.d, p.blk a.val = p.blk b.val → p.elimIn a.val b.val = p.elimIn b.val a.val
   energy_real : ∀ a : Fin p.d, star (p.energy a.val) = p.energy a.val
   absGt_neg : ∀ x : K, Thresholds.absGt (-x) p.atol = Thresholds.absGt x p.atol
 
@@ -24,13 +24,13 @@ variable (R : p.Ready) (hopt : p.twoBlockOptimized = false) (Y : p.Sym)
 
 include Y in
 theorem keptE_symm (a b : Fin p.d) : p.keptE a.val b.val = p.keptE b.val a.val := by
-  simp only [keptE, Y.elim_symm a b]
+  simp only [keptE]
   by_cases h : p.blk a.val = p.blk b.val
-  · rw [h]
+  · rw [Y.elim_symm a b h, h]
   · have h' : ¬ p.blk b = p.blk a := fun e => h e.symm
     have e1 : (p.blk a == p.blk b) = false := by simpa using h
     have e2 : (p.blk b == p.blk a) = false := by simpa using h'
-    rw [e1, e2]
+    rw [e1, e2, Bool.false_and, Bool.false_and]
 
 theorem star_intCast_inv (k : ℤ) : star (((k : ℤ) : K)⁻¹) = ((k : ℤ) : K)⁻¹ := by
   rw [star_inv₀, star_intCast]
@@ -66,7 +66,7 @@ theorem V_antiherm (n : List Nat) (hn : (n.all (· == 0)) = false) (a b : Fin p.
     have hne1 : (p.blk a.val != p.blk b.val) = false := by simp [h]
     have hne2 : (p.blk b.val != p.blk a.val) = false := by simp [h]
     rw [p.g_V_upper R.wf R.tot n hn a b hle1, p.g_V_upper R.wf R.tot n hn b a hle2, hne1, hne2,
-      Y.elim_symm b a]
+      Y.elim_symm b a h.symm]
     simp only [Bool.false_or]
     by_cases he : p.elimIn a.val b.val = true
     · simp only [he, ↓reduceIte, star_neg, neg_neg]
